@@ -924,6 +924,7 @@ func ruleOmitTagWholeTag(c *chk.Ctx) {
 func ruleDecodeTargets(c *chk.Ctx) {
 	wrap := handlerFunc(c, "(*FuncInfo).Wrap")
 	if wrap == nil {
+		c.Undecided("PAIR.wrap", nil, "ruleDecodeTargets: anchor", 0, "the code this rule is anchored in was not found (wrap == nil)")
 		return
 	}
 	ptrForm, valForm := false, false
